@@ -87,7 +87,7 @@ theorem subscribe_join_active (cfg : Cfg) {s : St} {g : Nat} (hi : Inv s) (hsub 
   have hd : (sL.subs s.nsubs).done = false := by rw [hL.done]; simp [newSub]
   constructor
   all_goals intros
-  all_goals simp [addTeardown, subjRegister, hd, joinState, hL.refCount, hL.subject, hL.sourceSubscription, hL.flagE, hL.flagC, hL.ngens, hL.nsubs, hL.panics, newSub]
+  all_goals simp [addTeardown, subjRegister, hd, joinState, hL.refCount, hL.subject, hL.sourceSubscription, hL.flagE, hL.flagC, hL.ngens, hL.nsubs, newSub]
   all_goals (try split)
   all_goals simp_all [hL.status, hL.done, hL.delFin, hL.tearFin, hL.gStatus, hL.gObs, hL.ssDone, hL.ssFins, hL.pStatus, hL.pDone, hL.pFin, hL.upSub, hL.upTorn, newSub]
 
@@ -183,7 +183,7 @@ theorem subscribe_join_latched (cfg : Cfg) {s : St} {g : Nat} (hi : Inv s) (hsub
     rw [late_effect cfg.flags s.nsubs g t ht sR h0 hd hdf htf hfl]
     constructor
     all_goals intros
-    all_goals simp [lateState, hR.refCount, hR.subject, hR.sourceSubscription, hR.flagE, hR.flagC, hR.ngens, hR.nsubs, hR.panics, newSub]
+    all_goals simp [lateState, hR.refCount, hR.subject, hR.sourceSubscription, hR.flagE, hR.flagC, hR.ngens, hR.nsubs, newSub]
     all_goals (try split)
     all_goals simp_all [hR.status, hR.done, hR.delFin, hR.tearFin, hR.gStatus, hR.gObs, hR.ssDone, hR.ssFins, hR.pStatus, hR.pDone, hR.pFin, hR.upSub, hR.upTorn, newSub]
   cases hst : (s.gens g).subj.status with
@@ -195,7 +195,7 @@ theorem subscribe_join_latched (cfg : Cfg) {s : St} {g : Nat} (hi : Inv s) (hsub
 
 /-- rewrite every control field of `s'` into the one of `s` -/
 macro "sim_rw" h:ident : tactic => `(tactic| simp only [($h).refCount, ($h).subject, ($h).sourceSubscription, ($h).flagE,
-  ($h).flagC, ($h).ngens, ($h).nsubs, ($h).panics, ($h).status, ($h).done, ($h).delFin, ($h).tearFin, ($h).gStatus, ($h).gObs,
+  ($h).flagC, ($h).ngens, ($h).nsubs, ($h).status, ($h).done, ($h).delFin, ($h).tearFin, ($h).gStatus, ($h).gObs,
   ($h).ssDone, ($h).ssFins, ($h).pStatus, ($h).pDone, ($h).pFin, ($h).upSub, ($h).upTorn])
 
 /-- common to the three phases of R3 for generation `g` created by subscriber `i` -/
@@ -205,7 +205,7 @@ structure FCommon (g i : Nat) (u : St) : Prop where
   nsubs : u.nsubs = i + 1
   stale : ∀ k, k < g → GenStale (u.gens k)
   closed : ∀ k, k < i → SubClosed (u.subs k)
-  count : u.refCount = 1 + u.panics
+  count : u.refCount = 1
   upSub : (u.gens g).upSub = true
   upTorn : (u.gens g).upTorn = false
   pFin : (u.gens g).pFin = false
@@ -372,34 +372,23 @@ theorem playPre_latch (cfg : Cfg) {g i : Nat} (pre : List Ev) {u : St} (h : FLat
   | nil => exact h
   | cons x xs ih => exact ih (h.sim (pEmit_closed_sim cfg g x h.pStatus h.pDone))
 
-theorem safePre_next (fl : Flags) (v : Int) (xs : List Ev) : SafePre fl (.next v :: xs) = SafePre fl xs := by
-  simp [SafePre, firstTerminal, Ev.isTerminal]
-
-theorem safePre_term (fl : Flags) (t : Ev) (ht : t.isTerminal = true) (xs : List Ev) : SafePre fl (t :: xs) = !fl.resetsOn t := by
-  simp [SafePre, firstTerminal, ht]
-
-/-- after the prefix: still live, or reset (only when the prefix is not `SafePre`), or latched -/
+/-- after the prefix: still live, or already reset, or latched -/
 theorem playPre_live (cfg : Cfg) {g i : Nat} (pre : List Ev) {u : St} (h : FLive g i u) :
-    FLive g i (playPre cfg g pre u) ∨ (SafePre cfg.flags pre = false ∧ FReset g i (playPre cfg g pre u)) ∨
-      FLatch g i (playPre cfg g pre u) := by
+    FLive g i (playPre cfg g pre u) ∨ FReset g i (playPre cfg g pre u) ∨ FLatch g i (playPre cfg g pre u) := by
   induction pre generalizing u with
   | nil => exact Or.inl h
   | cons x xs ih =>
     have hstep : playPre cfg g (x :: xs) u = playPre cfg g xs (pEmit cfg g x u) := rfl
     rw [hstep]
     cases x with
-    | next v =>
-      rw [safePre_next]
-      exact ih (h.sim (pNext_sim cfg g v u))
+    | next v => exact ih (h.sim (pNext_sim cfg g v u))
     | error e =>
-      rw [safePre_term _ _ rfl]
-      rcases flive_pTerm_phase cfg (.error e) rfl h with ⟨hf, hr⟩ | ⟨_, hl⟩
-      · exact Or.inr (Or.inl ⟨by simp [hf], playPre_reset cfg xs hr⟩)
+      rcases flive_pTerm_phase cfg (.error e) rfl h with ⟨_, hr⟩ | ⟨_, hl⟩
+      · exact Or.inr (Or.inl (playPre_reset cfg xs hr))
       · exact Or.inr (Or.inr (playPre_latch cfg xs hl))
     | complete =>
-      rw [safePre_term _ _ rfl]
-      rcases flive_pTerm_phase cfg .complete rfl h with ⟨hf, hr⟩ | ⟨_, hl⟩
-      · exact Or.inr (Or.inl ⟨by simp [hf], playPre_reset cfg xs hr⟩)
+      rcases flive_pTerm_phase cfg .complete rfl h with ⟨_, hr⟩ | ⟨_, hl⟩
+      · exact Or.inr (Or.inl (playPre_reset cfg xs hr))
       · exact Or.inr (Or.inr (playPre_latch cfg xs hl))
 
 theorem openSubs_single {s : St} {i : Nat} (hn : s.nsubs = i + 1) (hcl : ∀ k, k < i → (s.subs k).status ≠ 0)
@@ -427,24 +416,21 @@ def liveDone (i g : Nat) (u : St) : St :=
   { u with subs := fun k => if k = i then { (u.subs i) with tearFin := some g } else u.subs k,
            gens := fun k => if k = g then { (u.gens g) with pFin := true, ssFins := [g] } else u.gens k }
 
-def resetDone (g : Nat) (u : St) : St :=
-  ({ (u.modGen g fun x => { x with upTorn := true }) with panics := u.panics + 1 } : St).drop (.error .nilDeref)
-
 def latchDone (g : Nat) (u : St) : St :=
   { u with refCount := u.refCount - 1,
            gens := fun k => if k = g then { (u.gens g) with upTorn := true, ssFins := [g] } else u.gens k }
 
-theorem finish_live (fixed : Bool) (fl : Flags) {g i : Nat} {u : St} (h : FLive g i u) :
-    r3tail fixed fl i g (upAddTeardown g u) = liveDone i g u ∧ Inv (r3tail fixed fl i g (upAddTeardown g u)) ∧ GenActive (r3tail fixed fl i g (upAddTeardown g u)) g ∧
-      (r3tail fixed fl i g (upAddTeardown g u)).subject = some g := by
+theorem finish_live (fl : Flags) {g i : Nat} {u : St} (h : FLive g i u) :
+    r3tail fl i g (upAddTeardown g u) = liveDone i g u ∧ Inv (r3tail fl i g (upAddTeardown g u)) ∧ GenActive (r3tail fl i g (upAddTeardown g u)) g ∧
+      (r3tail fl i g (upAddTeardown g u)).subject = some g := by
   have hss : u.sourceSubscription = some g := by rw [h.shared]; exact h.subject
   have h1 := h.ssDone
   have h2 := h.ssFins
   have h3 := h.pDone
   have h4 := h.done
-  have e : r3tail fixed fl i g (upAddTeardown g u) = liveDone i g u := by
-    cases fixed <;> simp [r3tail, ssAdd, upAddTeardown, h.pDone, hss, h.ssDone, addTeardown, h.done, h.ssFins, liveDone] <;>
-      (refine ⟨?_, ?_⟩ <;> funext k <;> split <;> simp_all)
+  have e : r3tail fl i g (upAddTeardown g u) = liveDone i g u := by
+    simp [r3tail, ssAdd, upAddTeardown, h.pDone, h.ssDone, addTeardown, h.done, h.ssFins, liveDone]
+    refine ⟨?_, ?_⟩ <;> funext k <;> split <;> simp_all
   refine ⟨e, ?_⟩
   rw [e]
   generalize hF : liveDone i g u = F
@@ -485,8 +471,7 @@ theorem finish_live (fixed : Bool) (fl : Flags) {g i : Nat} {u : St} (h : FLive 
   · rw [hos]
     have := h.count
     have h1 : F.refCount = u.refCount := by rw [← hF]
-    have h2 : F.panics = u.panics := by rw [← hF]
-    rw [h1, h2, this]; simp
+    rw [h1, this]; simp
   · intro hn; rw [hsubj] at hn; cases hn
   · intro g' hg'
     rw [hsubj] at hg'
@@ -494,66 +479,20 @@ theorem finish_live (fixed : Bool) (fl : Flags) {g i : Nat} {u : St} (h : FLive 
     subst this
     exact ⟨by omega, Or.inl hact⟩
 
-theorem finish_reset (fl : Flags) {g i : Nat} {u : St} (h : FReset g i u) :
-    r3tail false fl i g (upAddTeardown g u) = resetDone g u ∧ Inv (r3tail false fl i g (upAddTeardown g u)) ∧ (r3tail false fl i g (upAddTeardown g u)).subject = none := by
-  have hss : u.sourceSubscription = none := by rw [h.shared]; exact h.subject
-  have hD : ∀ v : St, SubClosed (v.subs i) → dUnsubscribe fl i (dTerm fl i (.error .nilDeref) v) = v.drop (.error .nilDeref) := by
-    intro v hv
-    rw [dTerm_closed fl _ hv]
-    simp [dUnsubscribe, hv.status]
-  have e : r3tail false fl i g (upAddTeardown g u) = resetDone g u := by
-    have e1 : upAddTeardown g u = u.modGen g fun x => { x with upTorn := true } := by simp [upAddTeardown, h.pDone]
-    rw [e1]
-    unfold r3tail resetDone
-    simp only [Bool.false_eq_true, if_false]
-    have : (u.modGen g fun x => { x with upTorn := true }).sourceSubscription = none := hss
-    split
-    next => rw [hD]; rfl; exact h.sub
-    next g' hg' => rw [this] at hg'; cases hg'
-  refine ⟨e, ?_⟩
-  rw [e]
-  generalize hF : resetDone g u = F
-  simp only [resetDone] at hF
-  have hsubs : F.subs = u.subs := by rw [← hF]; rfl
-  have hgens : ∀ k, k ≠ g → F.gens k = u.gens k := by intro k hk; rw [← hF]; simp [hk]
-  have hns : F.nsubs = i + 1 := by rw [← hF]; exact h.nsubs
-  have hng : F.ngens = g + 1 := by rw [← hF]; exact h.ngens
-  have hsubj : F.subject = none := by rw [← hF]; exact h.subject
-  have hos : openSubs F = [] := openSubs_none hns (fun k hk => by rw [hsubs]; exact (h.closed k hk).status) (by rw [hsubs]; exact h.sub.status)
-  refine ⟨?_, hsubj⟩
-  constructor
-  · rw [← hF]; exact h.shared
-  · intro k hk hks
-    rw [hsubs]
-    by_cases hki : k = i
-    · subst hki; exact h.sub
-    · exact h.closed k (by omega)
-  · intro k hk _
-    by_cases hkg : k = g
-    · subst hkg
-      rw [← hF]
-      constructor <;> simp [h.pStatus, h.pDone, h.pFin, h.upSub, h.ssFins, h.ssDone, h.obs]
-    · rw [hgens k hkg]; exact h.stale k (by omega)
-  · rw [hos]
-    have := h.count
-    have h1 : F.refCount = u.refCount := by rw [← hF]; rfl
-    have h2 : F.panics = u.panics + 1 := by rw [← hF]; rfl
-    rw [h1, h2, this]; simp; omega
-  · intro _
-    exact ⟨by rw [← hF]; exact h.flagE, by rw [← hF]; exact h.flagC, hos⟩
-  · intro g' hg'; rw [hsubj] at hg'; cases hg'
-
-theorem finish_latch (fixed : Bool) (fl : Flags) {g i : Nat} {u : St} (h : FLatch g i u) :
-    r3tail fixed fl i g (upAddTeardown g u) = latchDone g u ∧ Inv (r3tail fixed fl i g (upAddTeardown g u)) ∧ GenLatched (r3tail fixed fl i g (upAddTeardown g u)) g ∧
-      (r3tail fixed fl i g (upAddTeardown g u)).subject = some g := by
+theorem finish_latch (fl : Flags) {g i : Nat} {u : St} (h : FLatch g i u) :
+    r3tail fl i g (upAddTeardown g u) = latchDone g u ∧ Inv (r3tail fl i g (upAddTeardown g u)) ∧ GenLatched (r3tail fl i g (upAddTeardown g u)) g ∧
+      (r3tail fl i g (upAddTeardown g u)).subject = some g := by
   have hss : u.sourceSubscription = some g := by rw [h.shared]; exact h.subject
   have hc := h.sub.status
   have h1 := h.ssDone
   have h2 := h.ssFins
   have h3 := h.pDone
-  have e : r3tail fixed fl i g (upAddTeardown g u) = latchDone g u := by
-    cases fixed <;> simp [r3tail, ssAdd, upAddTeardown, h.pDone, hss, h.ssDone, addTeardown, h.sub.done, h.ssFins, teardownT, casClose, hc, decRef, latchDone] <;>
-      (rw [zeroReset_flag (by exact h.flag)]; simp; funext k; split <;> simp_all)
+  have e : r3tail fl i g (upAddTeardown g u) = latchDone g u := by
+    simp [r3tail, ssAdd, upAddTeardown, h.pDone, h.ssDone, addTeardown, h.sub.done, h.ssFins, teardownT, casClose, hc, decRef, latchDone]
+    rw [zeroReset_flag (by exact h.flag)]
+    simp
+    funext k
+    split <;> simp_all
   refine ⟨e, ?_⟩
   rw [e]
   generalize hF : latchDone g u = F
@@ -583,27 +522,26 @@ theorem finish_latch (fixed : Bool) (fl : Flags) {g i : Nat} {u : St} (h : FLatc
   · rw [hos]
     have := h.count
     have h1 : F.refCount = u.refCount - 1 := by rw [← hF]
-    have h2 : F.panics = u.panics := by rw [← hF]
-    rw [h1, h2, this]; simp; omega
+    rw [h1, this]; simp
   · intro hn; rw [hsubj] at hn; cases hn
   · intro g' hg'
     rw [hsubj] at hg'
     have : g' = g := (Option.some.inj hg').symm
     subst this
     exact ⟨by omega, Or.inr hlat⟩
-/-- the repaired tree: the local `currentSourceSubscription` is already done, so the proxy's
-    `Unsubscribe` is run at once (a no-op: the proxy has ended) and Share's teardown is registered as
-    usual — it runs at once and gives the reference back -/
-def resetDoneFixed (g : Nat) (u : St) : St :=
+/-- the prefix ended on a terminal the configuration resets on: the local `currentSourceSubscription`
+    is already done, so the proxy's `Unsubscribe` is run at once (a no-op: the proxy has ended) and
+    Share's teardown is registered as usual — it runs at once and gives the reference back -/
+def resetDone (g : Nat) (u : St) : St :=
   { (u.modGen g fun x => { x with upTorn := true }) with refCount := u.refCount - 1 }
 
-theorem finish_reset_fixed (fl : Flags) {g i : Nat} {u : St} (h : FReset g i u) :
-    r3tail true fl i g (upAddTeardown g u) = resetDoneFixed g u ∧ Inv (r3tail true fl i g (upAddTeardown g u)) ∧
-      (r3tail true fl i g (upAddTeardown g u)).subject = none := by
+theorem finish_reset (fl : Flags) {g i : Nat} {u : St} (h : FReset g i u) :
+    r3tail fl i g (upAddTeardown g u) = resetDone g u ∧ Inv (r3tail fl i g (upAddTeardown g u)) ∧
+      (r3tail fl i g (upAddTeardown g u)).subject = none := by
   have hss : u.sourceSubscription = none := by rw [h.shared]; exact h.subject
   have hc := h.sub.status
   have hps := h.pStatus
-  have e : r3tail true fl i g (upAddTeardown g u) = resetDoneFixed g u := by
+  have e : r3tail fl i g (upAddTeardown g u) = resetDone g u := by
     have e1 : upAddTeardown g u = u.modGen g fun x => { x with upTorn := true } := by simp [upAddTeardown, h.pDone]
     rw [e1]
     have hz : ∀ w : St, w.subject = none → w.sourceSubscription = none → (w.gens g).ssDone = true → zeroReset fl g w = w := by
@@ -617,8 +555,8 @@ theorem finish_reset_fixed (fl : Flags) {g i : Nat} {u : St} (h : FReset g i u) 
     rfl
   refine ⟨e, ?_⟩
   rw [e]
-  generalize hF : resetDoneFixed g u = F
-  simp only [resetDoneFixed] at hF
+  generalize hF : resetDone g u = F
+  simp only [resetDone] at hF
   have hsubs : F.subs = u.subs := by rw [← hF]; rfl
   have hgens : ∀ k, k ≠ g → F.gens k = u.gens k := by intro k hk; rw [← hF]; simp [St.modGen, hk]
   have hns : F.nsubs = i + 1 := by rw [← hF]; exact h.nsubs
@@ -642,8 +580,7 @@ theorem finish_reset_fixed (fl : Flags) {g i : Nat} {u : St} (h : FReset g i u) 
   · rw [hos]
     have := h.count
     have h1 : F.refCount = u.refCount - 1 := by rw [← hF]
-    have h2 : F.panics = u.panics := by rw [← hF]; rfl
-    rw [h1, h2, this]; simp; omega
+    rw [h1, this]; simp
   · intro _
     exact ⟨by rw [← hF]; exact h.flagE, by rw [← hF]; exact h.flagC, hos⟩
   · intro g' hg'; rw [hsubj] at hg'; cases hg'
@@ -674,12 +611,12 @@ theorem flive_freshState (conn : Conn) {s : St} (hi : Inv s) (hsub : s.subject =
     have hne : k ≠ s.nsubs := by omega
     simp [freshState, hne]
     exact hi.closed k hk (openSubs_eq_nil.mp hno k hk)
-  · simp [freshState, hcount]; omega
+  · simp [freshState, hcount]
   all_goals simp [freshState, subjNew_open]
 
 theorem subscribe_fresh_eq (cfg : Cfg) {s : St} (hi : Inv s) (hsub : s.subject = none) :
     ∃ u0 k, Sim (freshState cfg.conn s) u0 ∧
-      subscribe cfg s = r3tail cfg.fixed cfg.flags s.nsubs s.ngens (upAddTeardown s.ngens (playPre cfg s.ngens (cfg.pre k) u0)) := by
+      subscribe cfg s = r3tail cfg.flags s.nsubs s.ngens (upAddTeardown s.ngens (playPre cfg s.ngens (cfg.pre k) u0)) := by
   have hnn : needsNew s = true := (needsNew_iff hi).mpr hsub
   have hnn' : needsNew (newSub s) = true := hnn
   have e1 : r1 cfg (newSub s) =
@@ -704,7 +641,7 @@ theorem subscribe_fresh_eq (cfg : Cfg) {s : St} (hi : Inv s) (hsub : s.subject =
   refine ⟨_, _, ?_, rfl⟩
   constructor
   all_goals intros
-  all_goals simp [subjRegister, hd, freshState, hL.refCount, hL.subject, hL.sourceSubscription, hL.flagE, hL.flagC, hL.ngens, hL.nsubs, hL.panics, newSub]
+  all_goals simp [subjRegister, hd, freshState, hL.refCount, hL.subject, hL.sourceSubscription, hL.flagE, hL.flagC, hL.ngens, hL.nsubs, newSub]
   all_goals (try split)
   all_goals simp_all [hL.status, hL.done, hL.delFin, hL.tearFin, hL.gStatus, hL.gObs, hL.ssDone, hL.ssFins, hL.pStatus, hL.pDone, hL.pFin, hL.upSub, hL.upTorn, newSub, subjNew_open, subjNew_obs]
 /-- how a `sub` event ends, with the invariant: joined the live generation, was served a latched
@@ -716,12 +653,10 @@ theorem subscribe_cases (cfg : Cfg) {s : St} (hi : Inv s) :
     obtain ⟨u0, k, hsim, he⟩ := subscribe_fresh_eq cfg hi hsub
     rw [he]
     have hl := (flive_freshState cfg.conn hi hsub).sim hsim
-    rcases playPre_live cfg (cfg.pre k) hl with h | ⟨_, h⟩ | h
-    · exact (finish_live cfg.fixed cfg.flags h).2.1
-    · cases hfx : cfg.fixed
-      · exact (finish_reset cfg.flags h).2.1
-      · exact (finish_reset_fixed cfg.flags h).2.1
-    · exact (finish_latch cfg.fixed cfg.flags h).2.1
+    rcases playPre_live cfg (cfg.pre k) hl with h | h | h
+    · exact (finish_live cfg.flags h).2.1
+    · exact (finish_reset cfg.flags h).2.1
+    · exact (finish_latch cfg.flags h).2.1
   | some g =>
     rcases (hi.cur g hsub).2 with ha | hl
     · exact (inv_joinState hi hsub ha).1.sim (subscribe_join_active cfg hi hsub ha)
